@@ -33,7 +33,8 @@ Init == muts = <<>> /\ entry \in Entries /\ allow \in BOOLEAN /\ yaml \in BOOLEA
 
 Mutate(op, n) ==
    /\ Len(muts) < MaxMut
-   /\ (Len(muts) >= 1 => n % PairStride = Seed % PairStride)      \* pairs on a seeded slice of the nodes
+   /\ (Len(muts) >= 1 => (n % PairStride = Seed % PairStride          \* pairs on a seeded slice of the nodes,
+                           /\ entry = "data" /\ allow /\ ~yaml))      \* JSON through LoadFromData only
    /\ muts' = Append(muts, [op |-> op, node |-> n])
    /\ UNCHANGED <<entry, allow, yaml>>
 
